@@ -538,6 +538,233 @@ def factorial_domain(rep):
               f"otherwise; returns {rets}", node=fn)
 
 
+class _NotEvaluated(AnalysisError):
+    pass
+
+
+def _eval_sylm(S, fn, funcs, s_, el_, m_, flags):
+    """evaluate maths.sYlm with concrete integers (s, l, m) and symbolic angles: the result is
+    an exact polynomial in Ch = cos(theta/2), Sh = sin(theta/2), E = exp(i phi), pi and square
+    roots of primes.  Nothing numerical is computed on angles."""
+    import math
+    from fractions import Fraction
+    from ..tpoly import P, asP
+    num = (int, Fraction)
+    params = [a.arg for a in fn.args.args]
+    env = dict(zip(params, [s_, el_, m_, P.atom("theta"), P.atom("phi")]))
+    HALF = P.atom("theta").scale(Fraction(1, 2))
+
+    def call_py(f, args):
+        body = [x for x in f.body if not (isinstance(x, ast.Expr)
+                                          and isinstance(x.value, ast.Constant))]
+        e2 = dict(zip([a.arg for a in f.args.args], args))
+        r = block(body, e2)
+        if r is None:
+            raise _NotEvaluated("helper without a return")
+        return r[1]
+
+    def ev(n, env):
+        if isinstance(n, ast.Constant):
+            if isinstance(n.value, bool):
+                return n.value
+            if isinstance(n.value, int):
+                return n.value
+            if isinstance(n.value, float):
+                return Fraction(n.value).limit_denominator(10**12)
+            if isinstance(n.value, complex) and n.value.real == 0:
+                return P.atom("I").scale(Fraction(n.value.imag).limit_denominator(10**12))
+            raise _NotEvaluated("constant " + unparse(n))
+        if isinstance(n, ast.Name):
+            if n.id in env:
+                return env[n.id]
+            raise _NotEvaluated("name " + n.id)
+        if isinstance(n, ast.Attribute) and unparse(n) in ("np.pi", "math.pi"):
+            return P.atom("pi")
+        if isinstance(n, ast.UnaryOp) and isinstance(n.op, ast.USub):
+            v = ev(n.operand, env)
+            return -v
+        if isinstance(n, ast.BinOp):
+            a, b = ev(n.left, env), ev(n.right, env)
+            op = n.op
+            if isinstance(a, num) and isinstance(b, num):
+                if isinstance(op, ast.Add):
+                    return a + b
+                if isinstance(op, ast.Sub):
+                    return a - b
+                if isinstance(op, ast.Mult):
+                    return a * b
+                if isinstance(op, ast.Div):
+                    return Fraction(a) / Fraction(b)
+                if isinstance(op, ast.FloorDiv):
+                    return a // b
+                if isinstance(op, ast.Pow):
+                    if isinstance(b, int) or Fraction(b).denominator == 1:
+                        return Fraction(a) ** int(b)
+            A, B = asP(a), asP(b)
+            if isinstance(op, ast.Add):
+                return A + B
+            if isinstance(op, ast.Sub):
+                return A - B
+            if isinstance(op, ast.Mult):
+                return A * B
+            if isinstance(op, ast.Div):
+                if not B.is_const():
+                    if B.atoms() & {"Ch", "Sh", "Tn", "theta"}:
+                        flags.append(("division", unparse(n)[:60]))
+                return A * B.pow(-1)
+            if isinstance(op, ast.Pow):
+                if isinstance(b, num):
+                    e = Fraction(b)
+                    if e < 0 and A.atoms() & {"Ch", "Sh", "Tn", "theta"}:
+                        flags.append(("negative power", unparse(n)[:60]))
+                    return A.pow(e)
+            raise _NotEvaluated("operator in " + unparse(n)[:50])
+        if isinstance(n, ast.Compare) and len(n.ops) == 1:
+            a, b = ev(n.left, env), ev(n.comparators[0], env)
+            if isinstance(a, num) and isinstance(b, num):
+                return {"LtE": a <= b, "Lt": a < b, "GtE": a >= b, "Gt": a > b,
+                        "Eq": a == b, "NotEq": a != b}[type(n.ops[0]).__name__]
+            raise _NotEvaluated("comparison of angles")
+        if isinstance(n, ast.Call):
+            f = unparse(n.func)
+            args = [ev(a, env) for a in n.args]
+            if f in ("max", "min") and all(isinstance(a, num) for a in args):
+                return (max if f == "max" else min)(args)
+            if f == "range" and all(isinstance(a, int) for a in args):
+                return range(*args)
+            if f in ("sc.binom", "sc.special.binom", "scipy.special.binom", "math.comb",
+                     "sc.comb", "sc.special.comb") and all(isinstance(a, num) for a in args):
+                a_, b_ = int(args[0]), int(args[1])
+                return math.comb(a_, b_) if 0 <= b_ <= a_ else 0
+            if f in ("sc.factorial", "sc.special.factorial", "math.factorial") \
+                    and isinstance(args[0], num):
+                return math.factorial(int(args[0]))
+            if f in ("abs",) and isinstance(args[0], num):
+                return abs(args[0])
+            if f in ("float", "int", "complex"):
+                return args[0]
+            if f in ("np.sqrt", "math.sqrt"):
+                return asP(args[0]).pow(Fraction(1, 2))
+            if f in ("np.cos", "np.sin", "np.tan") and asP(args[0]) == HALF:
+                return P.atom({"np.cos": "Ch", "np.sin": "Sh", "np.tan": "Tn"}[f])
+            if f == "np.exp":
+                a = asP(args[0])
+                # exp(i k phi) -> E**k
+                if len(a.t) == 1:
+                    (mono, c), = a.t.items()
+                    if dict(mono) == {"I": Fraction(1), "phi": Fraction(1)} \
+                            and c.denominator == 1:
+                        return P.atom("E", int(c))
+                if a.is_zero():
+                    return 1
+                raise _NotEvaluated("exponential " + unparse(n)[:50])
+            if isinstance(n.func, ast.Name) and n.func.id in funcs:
+                return call_py(funcs[n.func.id], args)
+            raise _NotEvaluated("call " + f)
+        raise _NotEvaluated("expression " + unparse(n)[:50])
+
+    def block(stmts, env):
+        for st in stmts:
+            if isinstance(st, ast.Expr) and isinstance(st.value, ast.Constant):
+                continue
+            if isinstance(st, ast.Assign) and isinstance(st.targets[0], ast.Name):
+                env[st.targets[0].id] = ev(st.value, env)
+            elif isinstance(st, ast.AugAssign) and isinstance(st.target, ast.Name) \
+                    and isinstance(st.op, (ast.Add, ast.Sub, ast.Mult)):
+                cur, v = env[st.target.id], ev(st.value, env)
+                if isinstance(st.op, ast.Add):
+                    env[st.target.id] = asP(cur) + asP(v)
+                elif isinstance(st.op, ast.Sub):
+                    env[st.target.id] = asP(cur) - asP(v)
+                else:
+                    env[st.target.id] = asP(cur) * asP(v)
+            elif isinstance(st, ast.For) and isinstance(st.target, ast.Name):
+                it = ev(st.iter, env)
+                if not isinstance(it, range):
+                    raise _NotEvaluated("loop over " + unparse(st.iter)[:40])
+                for x in it:
+                    env[st.target.id] = x
+                    r = block(st.body, env)
+                    if r is not None:
+                        return r
+            elif isinstance(st, ast.If):
+                c = ev(st.test, env)
+                if not isinstance(c, bool):
+                    raise _NotEvaluated("branch on an angle")
+                r = block(st.body if c else st.orelse, env)
+                if r is not None:
+                    return r
+            elif isinstance(st, ast.Return):
+                return ("ret", ev(st.value, env))
+            else:
+                raise _NotEvaluated("statement " + unparse(st)[:50])
+        return None
+    r = block([x for x in fn.body if not (isinstance(x, ast.Expr)
+                                          and isinstance(x.value, ast.Constant))], env)
+    if r is None:
+        raise _NotEvaluated("no return")
+    return asP(r[1])
+
+
+def _goldberg(s_, el_, m_):
+    """Goldberg et al. (1967) Eq. 3.1, written independently of the library:
+       sYlm = sqrt[(l+m)!(l-m)!(2l+1) / ((l+s)!(l-s)! 4 pi)] * sum_r C(l-s, r) C(l+s, r+s-m)
+              (-1)^(l-r-s) e^{i m phi} cos^(2r+s-m)(theta/2) sin^(2l-2r-s+m)(theta/2)"""
+    import math
+    from fractions import Fraction
+    from ..tpoly import P
+    pref = (P.const(Fraction(math.factorial(el_ + m_) * math.factorial(el_ - m_) * (2 * el_ + 1),
+                             math.factorial(el_ + s_) * math.factorial(el_ - s_) * 4))
+            * P.atom("pi", -1)).pow(Fraction(1, 2))
+    tot = P()
+    for r in range(max(m_ - s_, 0), min(el_ + m_, el_ - s_) + 1):
+        c = math.comb(el_ - s_, r) * math.comb(el_ + s_, r + s_ - m_) * (-1) ** (el_ - r - s_)
+        tot = tot + (P.const(c) * P.atom("Ch", 2 * r + s_ - m_)
+                     * P.atom("Sh", 2 * el_ - 2 * r - s_ + m_))
+    e = P.atom("E", m_) if m_ else P.const(1)
+    return pref * tot * e
+
+
+def harmonics_formula(rep):
+    """sYlm equals the Goldberg closed form, as an exact polynomial in cos(theta/2),
+    sin(theta/2) and exp(i phi), for every spin |s| <= 2 and every (l, m) with l <= 4 -- the
+    function is evaluated with those integers concrete and the angles symbolic (normalisation,
+    phase and the m <-> s bookkeeping are all in that polynomial).  It is also regular at the
+    poles: no division by, and no negative power of, a function of theta."""
+    S = rep.sources
+    fn = S.function(MATHS, "sYlm")
+    funcs = {f.name: f for f in S.module(MATHS).body if isinstance(f, ast.FunctionDef)}
+    key = f"{MATHS}::sYlm"
+    bad, n = [], 0
+    flags = []
+    try:
+        for s_ in range(-2, 3):
+            for el_ in range(abs(s_), 5):
+                for m_ in range(-el_, el_ + 1):
+                    got = _eval_sylm(S, fn, funcs, s_, el_, m_, flags)
+                    n += 1
+                    if got != _goldberg(s_, el_, m_):
+                        bad.append((s_, el_, m_))
+    except _NotEvaluated as e:
+        if flags:
+            rep.violation("pole-regularity", key + "::poles",
+                          f"sYlm divides by / takes a negative power of a function of theta "
+                          f"({flags[0][0]}: `{flags[0][1]}`): at theta = 0 or pi the value is "
+                          "inf - inf or nan, although the harmonic is finite there", node=fn,
+                          file=MATHS)
+            return
+        raise AnalysisError(f"sYlm: not evaluated symbolically ({e})")
+    rep.check(not flags, "pole-regularity", key + "::poles",
+              "sYlm divides by / takes a negative power of a function of theta"
+              + (f" ({flags[0][0]}: `{flags[0][1]}`)" if flags else "")
+              + ": at a pole the value is inf - inf or nan, although the harmonic is finite "
+              "there", node=fn, file=MATHS)
+    rep.check(not bad, "harmonics-formula", key + "::goldberg",
+              f"sYlm differs from the Goldberg closed form for (s, l, m) in {bad[:6]} "
+              f"({len(bad)} of {n} cases)", node=fn, file=MATHS,
+              detail={"cases": n, "spins": "-2..2", "lmax": 4})
+
+
 def run(rep):
     rep.explanation = (
         "Structural clauses only: must-pass-through of the bounds refusal before the "
@@ -554,6 +781,7 @@ def run(rep):
     angle_roles(rep)
     per_radius(rep)
     factorial_domain(rep)
+    harmonics_formula(rep)
     rep.floor("bounds-refusal", 2)
     rep.floor("analysis-synthesis", 4)
     rep.floor("angle-roles", 4)
